@@ -183,6 +183,12 @@ def _sl(spec):
     return np.array(spec[1])
 
 
+def _timing(rng):
+    """the Network option print_timing (False / True / threshold in seconds) selects a different execution branch"""
+    r = rng.random()
+    return False if r < 0.6 else (True if r < 0.8 else 10.0)
+
+
 def build(P, x0, rng):
     import pymoto as pym
     Atom = atom_class()
@@ -202,14 +208,14 @@ def build(P, x0, rng):
     if len(mods) >= 3 and rng.random() < 0.6:
         a = int(rng.integers(0, len(mods) - 1))
         b = int(rng.integers(a + 1, len(mods)))
-        inner = pym.Network(*mods[a:b + 1])
+        inner = pym.Network(*mods[a:b + 1], print_timing=_timing(rng))
         nested = 1
         if rng.random() < 0.4 and b - a >= 1:
-            inner = pym.Network(pym.Network(*mods[a:a + 1]), *mods[a + 1:b + 1])
+            inner = pym.Network(pym.Network(*mods[a:a + 1]), *mods[a + 1:b + 1], print_timing=_timing(rng))
             nested = 2
-        net = pym.Network(*mods[:a], inner, *mods[b + 1:])
+        net = pym.Network(*mods[:a], inner, *mods[b + 1:], print_timing=_timing(rng))
     else:
-        net = pym.Network(*mods)
+        net = pym.Network(*mods, print_timing=_timing(rng))
     return net, sigs, mods, nested
 
 
